@@ -3,8 +3,12 @@ import json,sys
 r=json.load(sys.stdin)
 print("evals",r['evaluations'],"distinct",len(r['distinct']),"cases",r['cases'])
 full = len(sys.argv)>1
-for v in sorted(r['violations'], key=lambda v:-v['count']):
+for v in sorted(r['violations'], key=lambda v:-v['count'])[:int(sys.argv[2]) if len(sys.argv)>2 else 100]:
     print(v['count'], v['sig'])
-    if full: print("     ", json.dumps(v['detail'],ensure_ascii=False)[:int(sys.argv[1])])
+    if full:
+        d=dict(v['detail']); h=d.pop('history',None)
+        print("     ", json.dumps(d,ensure_ascii=False)[:int(sys.argv[1])])
+        if h:
+            for o in h['ops'][-6:]: print("        ", json.dumps(o,ensure_ascii=False)[:int(sys.argv[1])])
 h=r['hist']
 print({k:v for k,v in h.items() if k.startswith('history-ended')})
